@@ -15,7 +15,10 @@ import numpy as np
 
 
 class SpringModel:
-    def __init__(self, rc: float, seed: int = 0, central: bool = False, decay: float = 0.7):
+    def __init__(self, rc: float, seed: int = 0, central: bool = False, decay: float = 0.7, chiral: float = 0.0):
+        # chiral != 0 adds an antisymmetric part c*k_r*[e]x to every pair block (Phi(ij) != Phi(ij)^T while
+        # Phi(ji) = Phi(ij)^T still holds); the self term takes the symmetric parts only, so the acoustic sum rule is given up
+        self.chiral = float(chiral)
         self.rc = float(rc)
         self.seed = int(seed)
         self.central = central
@@ -37,7 +40,7 @@ class SpringModel:
         return kr, kt
 
     def todict(self):
-        return {"rc": self.rc, "seed": self.seed, "central": self.central, "decay": self.decay}
+        return {"rc": self.rc, "seed": self.seed, "central": self.central, "decay": self.decay, "chiral": self.chiral}
 
 
 def lattice_translations(L, rmax):
@@ -58,11 +61,24 @@ def shortest_lattice_vector(L):
     return float(ln[ln > 1e-9].min())
 
 
-def _phi_block(v, kr, kt):
+_EPS = np.zeros((3, 3, 3))
+for _a, _b, _c in ((0, 1, 2), (1, 2, 0), (2, 0, 1)):
+    _EPS[_a, _b, _c] = 1.0
+    _EPS[_b, _a, _c] = -1.0
+
+
+def _phi_block(v, kr, kt, chiral=0.0):
     d = np.linalg.norm(v, axis=-1)
     e = v / d[..., None]
     ee = e[..., :, None] * e[..., None, :]
-    return -(kr[..., None, None] * ee + kt[..., None, None] * (np.eye(3) - ee))
+    out = -(kr[..., None, None] * ee + kt[..., None, None] * (np.eye(3) - ee))
+    if chiral:
+        out = out - chiral * kr[..., None, None] * np.einsum("abc,...c->...ab", _EPS, e)
+    return out
+
+
+def _sym(p):
+    return 0.5 * (p + np.swapaxes(p, -1, -2))
 
 
 def folded_fc(L, cart, symbols, model: SpringModel):
@@ -85,9 +101,9 @@ def folded_fc(L, cart, symbols, model: SpringModel):
             if not m.any():
                 continue
             kr, kt = model.k(symbols[i], symbols[j], d[m])
-            p = _phi_block(v[m], kr, kt).sum(axis=0)
+            p = _phi_block(v[m], kr, kt, model.chiral).sum(axis=0)
             fc[i, j] += p
-            fc[i, i] -= p
+            fc[i, i] -= _sym(p)
     return fc
 
 
@@ -120,10 +136,10 @@ def dynmat(Lp, cart, symbols, masses, q_frac, model: SpringModel):
             if not m.any():
                 continue
             kr, kt = model.k(symbols[i], symbols[j], d[m])
-            p = _phi_block(v[m], kr, kt)
+            p = _phi_block(v[m], kr, kt, model.chiral)
             ph = np.exp(2j * np.pi * (v[m] @ qc))
             D[i, :, j, :] += (p * ph[:, None, None]).sum(axis=0) / np.sqrt(masses[i] * masses[j])
-            D[i, :, i, :] -= p.sum(axis=0) / masses[i]
+            D[i, :, i, :] -= _sym(p.sum(axis=0)) / masses[i]
     return D.reshape(3 * n, 3 * n)
 
 
@@ -145,7 +161,7 @@ def dynmat_gradient(Lp, cart, symbols, masses, q_frac, model: SpringModel):
             if not m.any():
                 continue
             kr, kt = model.k(symbols[i], symbols[j], d[m])
-            p = _phi_block(v[m], kr, kt)
+            p = _phi_block(v[m], kr, kt, model.chiral)
             ph = np.exp(2j * np.pi * (v[m] @ qc))
             for a in range(3):
                 G[a, i, :, j, :] += (p * (2j * np.pi * v[m][:, a] * ph)[:, None, None]).sum(axis=0) / np.sqrt(masses[i] * masses[j])
@@ -173,3 +189,13 @@ def selfcheck():
     D0 = dynmat(L, cart, sym, m, [0, 0, 0], mdl)
     Dfc = (fc / np.sqrt(m[:, None] * m[None, :])[:, :, None, None]).transpose(0, 2, 1, 3).reshape(12, 12)
     assert np.abs(D0 - Dfc).max() < 1e-12
+    # chiral variant: permutation symmetry and Hermiticity survive, the pair blocks are not symmetric any more
+    mc = SpringModel(rc=5.0, seed=3, chiral=0.4)
+    fcc = folded_fc(L, cart, sym, mc)
+    assert np.abs(fcc - fcc.transpose(1, 0, 3, 2)).max() < 1e-12
+    assert np.abs(fcc - fcc.transpose(0, 1, 3, 2)).max() > 1e-3
+    Dc = dynmat(L, cart, sym, m, [0.13, -0.2, 0.31], mc)
+    assert np.abs(Dc - Dc.conj().T).max() < 1e-12
+    D0c = dynmat(L, cart, sym, m, [0, 0, 0], mc)
+    Dfcc = (fcc / np.sqrt(m[:, None] * m[None, :])[:, :, None, None]).transpose(0, 2, 1, 3).reshape(12, 12)
+    assert np.abs(D0c - Dfcc).max() < 1e-12
